@@ -97,7 +97,7 @@ type NH struct {
 	rig.NodeHistory
 }
 
-const ruleNode = "tier 2 (single RaftNode over RocksDB in executor children): rapid-drawn sequences of single / bulk adds, clean restarts, SIGKILL crash points before / after a store write (followed by restart and log replay) and forced raft snapshots; acknowledged versions must be dense and in order across all of them, a crashed in-flight entry must be applied exactly once, and proofs must report CurrentVersion = accepted-1. Non-trivial: >=1 bulk>=2 and >=1 restart or crash between two insertions. distinct = FNV-64 of the history."
+const ruleNode = "tier 2 (single RaftNode over RocksDB in executor children): rapid-drawn sequences of single / bulk adds, clean restarts, SIGKILL crash points before / after a store write and injected write faults (the store refuses the k-th write with an I/O error), each followed by restart and log replay, and forced raft snapshots; acknowledged versions must be dense and in order across all of them, a crashed in-flight entry must be applied exactly once, and proofs must report CurrentVersion = accepted-1. Non-trivial: >=1 bulk>=2 and >=1 restart or crash between two insertions. distinct = FNV-64 of the history."
 
 func TestNodeDense(t *testing.T) {
 	rec := pbt.NewRec("C05", "TestNodeDense", ruleNode)
@@ -116,7 +116,7 @@ func TestNodeDense(t *testing.T) {
 				}
 			case 2:
 				if i < m-1 {
-					a = rig.Step{Op: "crash", Events: a.Events, Single: a.Single, Pos: rapid.SampledFrom([]string{"before", "after"}).Draw(rt, "pos")}
+					a = rig.Step{Op: "crash", Events: a.Events, Single: a.Single, Pos: rapid.SampledFrom([]string{"before", "after", "fail"}).Draw(rt, "pos")}
 				}
 			}
 			h.Steps = append(h.Steps, a)
